@@ -282,7 +282,7 @@ class Unit:
         return dict(name=self.name, kind=self.kind, rule=self.rule, evaluations=self.evaluations,
                     distinct_nontrivial=len(self.nontrivial), skipped_for_margin=self.skipped,
                     mismatches=len(self.mismatches), error=self.error, histogram=self.hist,
-                    exhaustive=self.exhaustive, samples=self.samples[:3])
+                    exhaustive=self.exhaustive, samples=jsonable(self.samples[:3]))
 
 
 class Ctx:
